@@ -22,6 +22,8 @@ const (
 	ModeTrue              // bool predicate returning true
 	ModeFalse             // bool predicate returning false
 	ModeAll               // every return
+	ModeNil               // single pointer result is nil
+	ModeNonNil            // single pointer result is not nil
 )
 
 type pathKey struct {
@@ -213,9 +215,27 @@ func (e *Engine) Paths(fn *ssa.Function, ctx *Ctx, mode Mode) []*Alt {
 			for _, c := range e.phiCases(g, b.Index, last, []state{{nil, ctx}}, 0, 0) {
 				states = append(states, e.applyErrOperand(c.v, c.at, g, c.states)...)
 			}
-		case (mode == ModeTrue || mode == ModeFalse) && len(ret.Results) == 1:
-			for _, c := range e.phiCases(g, b.Index, ret.Results[0], []state{{nil, ctx}}, 0, 0) {
+		case (mode == ModeTrue || mode == ModeFalse) && len(ret.Results) >= 1 && isBoolType(ret.Results[len(ret.Results)-1].Type()):
+			// a predicate, or a (value, found) pair tested on its flag
+			for _, c := range e.phiCases(g, b.Index, ret.Results[len(ret.Results)-1], []state{{nil, ctx}}, 0, 0) {
 				states = append(states, e.applyBoolOperand(c.v, mode == ModeTrue, c.states)...)
+			}
+		case (mode == ModeNil || mode == ModeNonNil) && len(ret.Results) == 1:
+			// a lookup helper returning a pointer or nil, tested against nil by its caller
+			for _, c := range e.phiCases(g, b.Index, ret.Results[0], []state{{nil, ctx}}, 0, 0) {
+				isNil := false
+				if k, ok := c.v.(*ssa.Const); ok && k.IsNil() {
+					isNil = true
+				}
+				nonNil := false
+				switch c.v.(type) {
+				case *ssa.Alloc, *ssa.IndexAddr, *ssa.FieldAddr, *ssa.MakeInterface, *ssa.MakeSlice, *ssa.MakeMap, *ssa.MakeClosure:
+					nonNil = true
+				}
+				if (mode == ModeNil && nonNil) || (mode == ModeNonNil && isNil) {
+					continue
+				}
+				states = append(states, c.states...)
 			}
 		default:
 			states = e.collect(g, b.Index, []state{{nil, ctx}}, 0)
@@ -483,12 +503,51 @@ func (e *Engine) expand(cond ssa.Value, want bool, states []state, loop string, 
 			val, other = bo.Y, bo.X
 		}
 		_ = other
+		if val != nil && !isErrorType(val.Type()) {
+			if _, isPtr := val.Type().Underlying().(*types.Pointer); isPtr {
+				if call, idx := callOf(val); call != nil && idx < 0 {
+					if cal := e.CalleeOf(call); cal != nil && cal.Signature.Results().Len() == 1 {
+						m := ModeNonNil
+						if (bo.Op == token.EQL) == want {
+							m = ModeNil
+						}
+						// the test itself as a plain gate (on the merged result), then the
+						// callee's alternatives
+						var pre []state
+						for _, st := range states {
+							t := e.Eval(cond, st.ctx)
+							if !want {
+								t = Not(t)
+							}
+							g := &Gate{Pred: t, Pos: pos, Fn: fn, Ctx: st.ctx, Loop: loop}
+							if dom != nil {
+								g.Dom = dom(st.ctx)
+							}
+							pre = append(pre, state{append(append([]*Gate{}, st.gates...), g), st.ctx})
+						}
+						return e.mulCall(call, cal, m, pre, loop)
+					}
+				}
+			}
+		}
 		if val != nil && isErrorType(val.Type()) {
 			wantNil := (bo.Op == token.EQL) == want
 			if call, idx := callOf(val); call != nil && wantNil {
 				if cal := e.CalleeOf(call); cal != nil && (idx < 0 || idx == cal.Signature.Results().Len()-1) {
 					return e.mulCall(call, cal, ModeErr, states, loop)
 				}
+			}
+		}
+	}
+	if ex, ok := cond.(*ssa.Extract); ok && isBoolType(ex.Type()) {
+		// the flag of a (value, found) pair returned by a repository helper
+		if call, ok := ex.Tuple.(*ssa.Call); ok {
+			if cal := e.CalleeOf(call); cal != nil && ex.Index == cal.Signature.Results().Len()-1 {
+				m := ModeTrue
+				if !want {
+					m = ModeFalse
+				}
+				return e.mulCall(call, cal, m, states, loop)
 			}
 		}
 	}
@@ -782,12 +841,15 @@ func (e *Engine) collectLoop(g *Graph, l *Loop, target int, states []state) (out
 				every = false
 			}
 		}
-		if !every {
-			continue
-		}
 		s0, s1 := blk.Succs[0].Index, blk.Succs[1].Index
 		r0, r1 := reach[s0], reach[s1]
 		if r0 == r1 {
+			continue
+		}
+		if !every {
+			// a test that only some iterations reach (`if skip { continue }; if bad { reject }`):
+			// for every iteration, the conditions leading to it imply its accepting outcome
+			states = e.loopImplication(g, l, bi, iff, r0, states, dom)
 			continue
 		}
 		states = e.expand(iff.Cond, r0, states, l.ID, dom, condPos(iff))
@@ -1077,6 +1139,67 @@ func unrollFiniteExits(a *Alt) []*Alt {
 			na.Results = append(na.Results, at(r, k))
 		}
 		out = append(out, unrollFiniteExits(na)...)
+	}
+	return out
+}
+
+// loopImplication: block bi of loop l ends in a test with a rejecting side but
+// is not passed on every iteration. If it is reached from a block that is
+// passed on every iteration through a chain of single-predecessor blocks,
+// emit  forall iteration: implies(conditions along the chain, accepting outcome).
+func (e *Engine) loopImplication(g *Graph, l *Loop, bi int, iff *ssa.If, acceptOnTrue bool, states []state, dom func(*Ctx) *Term) []state {
+	fn := g.Fn
+	everyIter := func(b int) bool {
+		for _, lt := range l.Latches {
+			if !g.Dominates(b, lt) {
+				return false
+			}
+		}
+		return true
+	}
+	type guard struct {
+		cond ssa.Value
+		want bool
+	}
+	var chain []guard
+	cur := bi
+	for !everyIter(cur) {
+		if len(g.Pred[cur]) != 1 || !l.Body[g.Pred[cur][0]] {
+			return states
+		}
+		p := g.Pred[cur][0]
+		pb := fn.Blocks[p]
+		if pif, ok := pb.Instrs[len(pb.Instrs)-1].(*ssa.If); ok && len(g.Succ[p]) == 2 {
+			if pb.Succs[0].Index == cur && pb.Succs[1].Index == cur {
+				return states
+			}
+			chain = append([]guard{{pif.Cond, pb.Succs[0].Index == cur}}, chain...)
+		}
+		cur = p
+	}
+	if len(chain) == 0 {
+		return states
+	}
+	var out []state
+	for _, st := range states {
+		var ante *Term
+		for _, gd := range chain {
+			t := e.Eval(gd.cond, st.ctx)
+			if !gd.want {
+				t = Not(t)
+			}
+			if ante == nil {
+				ante = t
+			} else {
+				ante = e.mk(OpBin, "&&", nil, ante, t)
+			}
+		}
+		cons := e.Eval(iff.Cond, st.ctx)
+		if !acceptOnTrue {
+			cons = Not(cons)
+		}
+		gate := &Gate{Pred: e.mk("implies", "", nil, ante, cons), Pos: condPos(iff), Fn: fn, Ctx: st.ctx, Loop: l.ID, Dom: dom(st.ctx)}
+		out = append(out, state{append(append([]*Gate{}, st.gates...), gate), st.ctx})
 	}
 	return out
 }
